@@ -553,8 +553,100 @@ func verifStageMatrix(r *gen.Rand) []vsOp {
 	return ops
 }
 
+// more directed scenarios: (a) the cleaner runs between Prepare and the first
+// part of a NEW version of a name that was delivered before (C20); (b) a complete
+// duplicate of a file that is validated and held for its predecessor arrives,
+// then the receiver restarts, then the predecessor arrives (C06, C05)
+func verifStageMatrix2(r *gen.Rand) []vsOp {
+	now := time.Now().Unix()
+	mk := func(name, prev string, size int) vsFile {
+		c := make([]byte, size)
+		for j := range c {
+			c[j] = byte(1 + r.Intn(250))
+		}
+		return vsFile{name: name, prev: prev, content: c, hash: vsMD5(c), time: now - int64(r.Intn(3000))}
+	}
+	var ops []vsOp
+	ops = append(ops, vsOp{kind: "SQ", name: "warm/up", num: -3600})
+	part := func(f vsFile, b, e int) vsPart {
+		return vsPart{name: f.name, renamed: f.renamed, prev: f.prev, hash: f.hash, size: int64(len(f.content)), beg: int64(b), end: int64(e), time: f.time}
+	}
+	prep := func(f vsFile) {
+		ops = append(ops, vsOp{kind: "PR", part: vsPart{name: f.name, size: int64(len(f.content))}})
+	}
+	recv := func(f vsFile, b, e int) {
+		ops = append(ops, vsOp{kind: "RC", part: part(f, b, e), data: append([]byte{}, f.content[b:e]...)})
+	}
+	whole := func(f vsFile) {
+		prep(f)
+		recv(f, 0, len(f.content))
+	}
+	names := [][2]string{{"site/data.bin", "site/next.bin"}, {"a", "b"}, {"g.1", "g.2"}, {"d/e/x", "d/y"}}[r.Intn(4)]
+	if r.Chance(1, 2) {
+		// (a) new version of a delivered name, cleaner between Prepare and the parts
+		v1 := mk(names[0], "", 2+r.Intn(10))
+		v2 := mk(names[0], "", 2+r.Intn(10))
+		whole(v1)
+		ops = append(ops, vsOp{kind: "ST"})
+		switch r.Intn(3) {
+		case 1:
+			ops = append(ops, vsOp{kind: "RS"}) // the delivered version is known from the log
+		case 2:
+			ops = append(ops, vsOp{kind: "RS"}, vsOp{kind: "SQ", name: v1.name, num: -3600})
+		}
+		if r.Chance(1, 3) {
+			v2 = v1 // a late duplicate of the same version
+		}
+		prep(v2)
+		ops = append(ops, vsOp{kind: "CL"})
+		h := len(v2.content) / 2
+		if h > 0 && r.Chance(1, 2) {
+			recv(v2, 0, h)
+			ops = append(ops, vsOp{kind: "CL"})
+			recv(v2, h, len(v2.content))
+		} else {
+			recv(v2, 0, len(v2.content))
+		}
+		ops = append(ops, vsOp{kind: "ST"}, vsOp{kind: "SQ", name: v2.name, num: -3600}, vsOp{kind: "CL"}, vsOp{kind: "ST"})
+		return ops
+	}
+	// (b) duplicate of a held file, restart, predecessor arrives
+	A := mk(names[0], "", 2+r.Intn(8))
+	B := mk(names[1], names[0], 2+r.Intn(8))
+	whole(B)
+	ops = append(ops, vsOp{kind: "ST"}, vsOp{kind: "SQ", name: B.name, num: -3600})
+	switch r.Intn(3) {
+	case 0:
+		whole(B) // complete duplicate in one part
+	case 1:
+		h := len(B.content) / 2
+		prep(B)
+		if h > 0 {
+			recv(B, 0, h)
+			recv(B, h, len(B.content))
+		} else {
+			recv(B, 0, len(B.content))
+		}
+	case 2:
+		prep(B) // announced again, nothing sent
+	}
+	ops = append(ops, vsOp{kind: "ST"}, vsOp{kind: "SQ", name: B.name, num: -3600})
+	if r.Chance(2, 3) {
+		ops = append(ops, vsOp{kind: "RS"}, vsOp{kind: "ST"}, vsOp{kind: "SQ", name: B.name, num: -3600})
+	}
+	if r.Chance(1, 3) {
+		ops = append(ops, vsOp{kind: "CL"})
+	}
+	whole(A)
+	ops = append(ops, vsOp{kind: "ST"}, vsOp{kind: "SQ", name: A.name, num: -3600}, vsOp{kind: "SQ", name: B.name, num: -3600}, vsOp{kind: "SC"}, vsOp{kind: "ST"})
+	return ops
+}
+
 func verifStageGen(r *gen.Rand) []vsOp {
 	if r.Chance(1, 4) {
+		if r.Chance(1, 3) {
+			return verifStageMatrix2(r)
+		}
 		return verifStageMatrix(r)
 	}
 	now := time.Now().Unix()
